@@ -48,7 +48,7 @@ class C02Scenario(ChangeScenario):
         return [h['id'] for h in self.params['handlers'] if h['on'] == reason]
 
     def children(self, hid: str) -> list[str]:
-        return [f"{hid}/{s['id']}" for s in self.params.get('subs', {}).get(hid, [])]
+        return self.descendants(hid)
 
     def check(self, env: Env) -> list[Violation]:
         out: list[Violation] = []
@@ -197,6 +197,14 @@ def scenarios(tier: str) -> tuple[list[C02Scenario], list[C02Scenario], list[C02
             subs = {'p': [dict(id='s1', script=sa), dict(id='s2', script=sb)]}
             plain.append(C02Scenario(handlers=handlers, subs=subs, lifecycle=lc, user=base_user, settings=settings,
                                      horizon=40.0, delays=False, early_user=False, time_dev=False))
+    # 3b. nested sub-handlers: parent -> mid -> two leaves (+ a sibling of mid), then a second cycle of the same handlers
+    for sm, sa, sb in itertools.product([['ok'], ['temp', 'ok']], scripts[:4], scripts[:2]):
+        for lc in ('asap', 'all_at_once'):
+            handlers = [dict(id='p', on='create', script=['ok'], backoff=3), dict(id='p2', on='update', script=['ok'], backoff=3)]
+            tree = [dict(id='mid', script=sm, subs=[dict(id='la', script=sa), dict(id='lb', script=sb)]), dict(id='s2', script=['ok'])]
+            subs = {'p': tree, 'p2': [dict(id='mid', script=['ok'], subs=[dict(id='la', script=['ok'])])]}
+            plain.append(C02Scenario(handlers=handlers, subs=subs, lifecycle=lc, user=base_user + [(30.0, 'spec', 'a', 2)], settings=settings,
+                                     horizon=60.0, delays=False, early_user=False, time_dev=False))
     timing.append(C02Scenario(handlers=[dict(id='p', on='create', script=['ok'], backoff=3), dict(id='c2', on='create', script=['temp', 'ok'])],
                               subs={'p': [dict(id='s1', script=['temp', 'ok']), dict(id='s2', script=['ok'])]},
                               lifecycle='asap', user=base_user + [(6.0, 'status', 'a', 1)], settings=settings, horizon=40.0))
